@@ -123,6 +123,194 @@ theorem walk_default (a : Message.AState) (sop : Message.SOp) (sops : List Messa
     | simp only [Message.walk]
 
 
+/-- the abstract state lists the questions and records given, and the mode of every item, in the
+    order of the message -/
+structure AbsContent (a : Message.AState) (b : Body) (mb : MBody) : Prop where
+  qs : a.questions.reverse = b.qs.map specQ
+  an : a.an.reverse = b.an.map specR
+  ns : a.ns.reverse = b.ns.map specR
+  ar : a.ar.reverse = b.ar.map specR
+  modes : a.itemModes.reverse = (mb.qs ++ mb.an ++ mb.ns ++ mb.ar).map Driver.toSpecMode
+
+theorem mapM_given_specR (o : WName) (ty cls ttl : Nat) : ∀ (rds : List (List UInt8)) (fss : List (List Message.Field)),
+    rds.mapM (Message.givenRdata ty cls) = some fss →
+    fss.map (fun fs => (⟨o.wire, ty, cls, Message.ttlOf ttl, fs⟩ : Message.Record)) =
+      (rds.map fun rd => (⟨o, ty, cls, ttlFrom ttl, rd⟩ : RRec)).map specR := by
+  intro rds
+  induction rds with
+  | nil => intro fss h; simp at h; subst h; rfl
+  | cons rd rds ih =>
+    intro fss h
+    simp only [List.mapM_cons] at h
+    cases hx : Message.givenRdata ty cls rd with
+    | none => rw [hx] at h; cases h
+    | some fs =>
+      rw [hx] at h
+      cases hxs : rds.mapM (Message.givenRdata ty cls) with
+      | none => rw [hxs] at h; cases h
+      | some fss' =>
+        rw [hxs] at h
+        cases h
+        simp only [List.map_cons, ih fss' hxs]
+        congr 1
+        simp only [specR, hx, Option.getD_some]
+        rfl
+
+theorem changeSection_fst_hv (sec : RrSection) (s : State) (v : Option HV) :
+    (changeSection sec { s with hv := v }).1 = (changeSection sec s).1 := by
+  unfold changeSection
+  cases sec <;> simp only [] <;> (try (cases s.sect <;> rfl))
+
+theorem nil_of_len {α β : Type} {l : List α} {l' : List β} (hl : l.length = l'.length) (hn : l' = []) : l = [] := by
+  rw [hn] at hl; exact List.eq_nil_of_length_eq_zero hl
+
+/-- the content of the abstract state follows the successful calls -/
+theorem absOk_content {P : CMode → Prop} (ss : Session) (op : Op) (a a' : Message.AState) (d : Message.Decoded)
+    (b : Body) (mb : MBody) (hL : CLay P ss.w b mb) (hA : AbsNum ss.w a) (hC : AbsContent a b mb)
+    (hnc : op ≠ .clearRrs) (hok : (step ss op).1 = .ok ())
+    (habs : Message.absOk a d (Driver.toSpecOp op) = .ok a') :
+    AbsContent a' (bodyStep b op) (mbodyStep ss.w.mode mb op) := by
+  obtain ⟨ml1, ml2, ml3⟩ := hL.ml
+  have hmode := hA.mode
+  -- sections later than the one written to are empty
+  have hsec : ∀ sec, (changeSection sec ss.w).1 = .ok () →
+      (sec = .answer → b.ns = [] ∧ b.ar = []) ∧ (sec = .authority → b.ar = []) := by
+    intro sec hcs
+    cases hc : changeSection sec ss.w with
+    | mk r s1 =>
+      rw [hc] at hcs
+      simp only at hcs
+      subst hcs
+      obtain ⟨_, hA1, hB1⟩ := changeSection_ok_inv sec ss.w s1 hc
+      refine ⟨fun h => ?_, fun h => ?_⟩
+      · rcases hA1 h with h1 | h1
+        · exact ⟨(hL.sq h1).2.2.1, (hL.sq h1).2.2.2⟩
+        · exact hL.sa h1
+      · have hne := hB1 h
+        cases hsx : ss.w.sect with
+        | question => exact (hL.sq hsx).2.2.2
+        | answer => exact (hL.sa hsx).2
+        | authority => exact hL.su hsx
+        | additional => exact absurd hsx hne
+  have addrecs : ∀ (sec : RrSection) (o : WName) (ty cls ttl : Nat) (rds : List (List UInt8)),
+      ((sec = .answer → b.ns = [] ∧ b.ar = []) ∧ (sec = .authority → b.ar = [])) →
+      Message.absOk a d (.addRrs (Driver.secNum sec) o.wire ty cls ttl rds) = .ok a' →
+      AbsContent a' (b.add sec (rds.map fun rd => ⟨o, ty, cls, ttlFrom ttl, rd⟩))
+        (mb.add sec (List.replicate rds.length ss.w.mode)) := by
+    intro sec o ty cls ttl rds hemp h
+    simp only [Message.absOk] at h
+    cases hm : rds.mapM (Message.givenRdata ty cls) with
+    | none => rw [hm] at h; cases h
+    | some fss =>
+      rw [hm] at h
+      simp only at h
+      have hrecs := mapM_given_specR o ty cls ttl rds fss hm
+      split at h
+      · cases h
+      · cases he : Message.endOf d (a.itemIdx + rds.length - 1) with
+        | none => rw [he] at h; cases h
+        | some e =>
+          rw [he] at h
+          simp only at h
+          have hmodes : (List.replicate rds.length a.mode ++ a.itemModes).reverse =
+              (mb.qs ++ mb.an ++ mb.ns ++ mb.ar).map Driver.toSpecMode ++
+                (List.replicate rds.length ss.w.mode).map Driver.toSpecMode := by
+            rw [List.reverse_append, hC.modes, List.reverse_replicate, hmode, List.map_replicate]
+          cases sec with
+          | answer =>
+            obtain ⟨e1, e2⟩ := hemp.1 rfl
+            have m1 := nil_of_len ml2 e1; have m2 := nil_of_len ml3 e2
+            simp only [Driver.secNum, if_true] at h
+            simp only [Except.ok.injEq] at h; subst h
+            refine ⟨hC.qs, ?_, hC.ns, hC.ar, ?_⟩
+            · show (_ ++ a.an).reverse = _
+              rw [List.reverse_append, List.reverse_reverse, hC.an, hrecs]; simp [Body.add]
+            · show (List.replicate rds.length a.mode ++ a.itemModes).reverse = _
+              rw [hmodes]; simp [MBody.add, m1, m2]
+          | authority =>
+            have e2 := hemp.2 rfl
+            have m2 := nil_of_len ml3 e2
+            simp only [Driver.secNum, Nat.reduceEqDiff, if_false, if_true] at h
+            simp only [Except.ok.injEq] at h; subst h
+            refine ⟨hC.qs, hC.an, ?_, hC.ar, ?_⟩
+            · show (_ ++ a.ns).reverse = _
+              rw [List.reverse_append, List.reverse_reverse, hC.ns, hrecs]; simp [Body.add]
+            · show (List.replicate rds.length a.mode ++ a.itemModes).reverse = _
+              rw [hmodes]; simp [MBody.add, m2]
+          | additional =>
+            simp only [Driver.secNum, Nat.reduceEqDiff, if_false] at h
+            simp only [Except.ok.injEq] at h; subst h
+            refine ⟨hC.qs, hC.an, hC.ns, ?_, ?_⟩
+            · show (_ ++ a.ar).reverse = _
+              rw [List.reverse_append, List.reverse_reverse, hC.ar, hrecs]; simp [Body.add]
+            · show (List.replicate rds.length a.mode ++ a.itemModes).reverse = _
+              rw [hmodes]; simp [MBody.add]
+  cases op with
+  | clearRrs => exact absurd rfl hnc
+  | addQuestion n t c =>
+    have hok' : (addQuestion n t c ss.w).1 = .ok () := by rw [← liftW_fst]; exact hok
+    cases hq : addQuestion n t c ss.w with
+    | mk r s' =>
+      rw [hq] at hok'; simp only at hok'; subst hok'
+      obtain ⟨s3, hsq, _, _⟩ := addQuestion_ok_inv n t c ss.w s' hq
+      obtain ⟨_, e1, e2, e3⟩ := hL.sq hsq
+      have m1 := nil_of_len ml1 e1; have m2 := nil_of_len ml2 e2; have m3 := nil_of_len ml3 e3
+      simp only [Driver.toSpecOp, Message.absOk] at habs
+      cases he : Message.endOf d a.itemIdx with
+      | none => rw [he] at habs; cases habs
+      | some e =>
+        rw [he] at habs
+        simp only [Except.ok.injEq] at habs; subst habs
+        refine ⟨?_, hC.an, hC.ns, hC.ar, ?_⟩
+        · show (_ :: a.questions).reverse = _
+          rw [List.reverse_cons, hC.qs]; simp [bodyStep, specQ]
+        · show (a.mode :: a.itemModes).reverse = _
+          rw [List.reverse_cons, hC.modes, hmode]
+          simp [mbodyStep, m1, m2, m3]
+  | addRr sec hn o ty cls ttl rd hv =>
+    have hok' : (addRrOp sec (resolveHint ss.hvs hn) o ty cls ttl rd { ss.w with hv := hv.map (hvGet ss.hvs) }).1 =
+        .ok () := by rw [← withHv_fst]; exact hok
+    cases hq : addRrOp sec (resolveHint ss.hvs hn) o ty cls ttl rd { ss.w with hv := hv.map (hvGet ss.hvs) } with
+    | mk r s' =>
+      rw [hq] at hok'; simp only at hok'; subst hok'
+      obtain ⟨s1, s2, h1, _, _, _⟩ := addRrOp_ok_inv sec _ o ty cls ttl rd _ s' hq
+      have hcs : (changeSection sec ss.w).1 = .ok () := by
+        rw [← changeSection_fst_hv sec ss.w (hv.map (hvGet ss.hvs)), h1]
+      have := addrecs sec o ty cls ttl [rd] (hsec sec hcs) habs
+      simpa [bodyStep, mbodyStep] using this
+  | addRrset sec hn o ty cls ttl rds hv =>
+    have hok' : (addRrsetOp sec (resolveHint ss.hvs hn) o ty cls ttl rds { ss.w with hv := hv.map (hvGet ss.hvs) }).1 =
+        .ok () := by rw [← withHv_fst]; exact hok
+    cases hq : addRrsetOp sec (resolveHint ss.hvs hn) o ty cls ttl rds { ss.w with hv := hv.map (hvGet ss.hvs) } with
+    | mk r s' =>
+      rw [hq] at hok'; simp only at hok'; subst hok'
+      obtain ⟨s1, s2, n, h1, _, _, _⟩ := addRrsetOp_ok_inv sec _ o ty cls ttl rds _ s' hq
+      have hcs : (changeSection sec ss.w).1 = .ok () := by
+        rw [← changeSection_fst_hv sec ss.w (hv.map (hvGet ss.hvs)), h1]
+      have := addrecs sec o ty cls ttl rds (hsec sec hcs) habs
+      simpa [bodyStep, mbodyStep] using this
+  | setTsig m rr =>
+    simp only [Driver.toSpecOp, Message.absOk] at habs
+    split at habs
+    · cases habs
+    · simp only [Except.ok.injEq] at habs; subst habs; exact ⟨hC.qs, hC.an, hC.ns, hC.ar, hC.modes⟩
+  | setId v => simp only [Driver.toSpecOp, Message.absOk, Except.ok.injEq] at habs; subst habs; exact ⟨hC.qs, hC.an, hC.ns, hC.ar, hC.modes⟩
+  | setQr v => simp only [Driver.toSpecOp, Message.absOk, Except.ok.injEq] at habs; subst habs; exact ⟨hC.qs, hC.an, hC.ns, hC.ar, hC.modes⟩
+  | setAa v => simp only [Driver.toSpecOp, Message.absOk, Except.ok.injEq] at habs; subst habs; exact ⟨hC.qs, hC.an, hC.ns, hC.ar, hC.modes⟩
+  | setTc v => simp only [Driver.toSpecOp, Message.absOk, Except.ok.injEq] at habs; subst habs; exact ⟨hC.qs, hC.an, hC.ns, hC.ar, hC.modes⟩
+  | setRd v => simp only [Driver.toSpecOp, Message.absOk, Except.ok.injEq] at habs; subst habs; exact ⟨hC.qs, hC.an, hC.ns, hC.ar, hC.modes⟩
+  | setRa v => simp only [Driver.toSpecOp, Message.absOk, Except.ok.injEq] at habs; subst habs; exact ⟨hC.qs, hC.an, hC.ns, hC.ar, hC.modes⟩
+  | setOpcode v => simp only [Driver.toSpecOp, Message.absOk, Except.ok.injEq] at habs; subst habs; exact ⟨hC.qs, hC.an, hC.ns, hC.ar, hC.modes⟩
+  | setRcode v => simp only [Driver.toSpecOp, Message.absOk, Except.ok.injEq] at habs; subst habs; exact ⟨hC.qs, hC.an, hC.ns, hC.ar, hC.modes⟩
+  | setLimit v => simp only [Driver.toSpecOp, Message.absOk, Except.ok.injEq] at habs; subst habs; exact ⟨hC.qs, hC.an, hC.ns, hC.ar, hC.modes⟩
+  | setMode v => simp only [Driver.toSpecOp, Message.absOk, Except.ok.injEq] at habs; subst habs; exact ⟨hC.qs, hC.an, hC.ns, hC.ar, hC.modes⟩
+  | getters => simp only [Driver.toSpecOp, Message.absOk, Except.ok.injEq] at habs; subst habs; exact ⟨hC.qs, hC.an, hC.ns, hC.ar, hC.modes⟩
+  | _ =>
+    simp only [Driver.toSpecOp, Message.absOk] at habs
+    (repeat' split at habs) <;> first
+      | (simp only [Except.ok.injEq] at habs; subst habs; exact ⟨hC.qs, hC.an, hC.ns, hC.ar, hC.modes⟩)
+      | cases habs
+
 def NonEmptySet : Op → Prop
   | .addRrset _ _ _ _ _ _ rds _ => rds ≠ []
   | _ => True
@@ -187,19 +375,20 @@ theorem walk_segment {sR : State} (hcurR : sR.cursor ≤ 65535) (d : Message.Dec
       (d.extents.map (·.2)).take (qs.length + rs.length) = qs.map qEnd ++ rs.map rEnd) :
     ∀ (ops : List Op) (ss : Session) (b : Body) (mb : MBody) (a : Message.AState),
       I ss.w → CLay (fun _ => True) ss.w b mb → AbsNum ss.w a → IdxOK a → a.itemIdx = bodyLen b →
-      a.hdr = specHeader ss.w.octets → a.hdr.z = 0 → (∀ op ∈ ops, op.Typed) →
+      a.hdr = specHeader ss.w.octets → a.hdr.z = 0 → AbsContent a b mb → (∀ op ∈ ops, op.Typed) →
       Respects ss ops → (∀ op ∈ ops, op ≠ .clearRrs ∧ op ≠ .getters ∧ NonEmptySet op) → (run ss ops).1.w = sR →
       ∃ aF, AbsNum sR aF ∧ aF.hdr = specHeader sR.octets ∧ aF.hdr.z = 0 ∧
+        AbsContent aF (bodyRun b ops (run ss ops).2) (mrun ss mb ops) ∧
         Message.walk false a (ops.map Driver.toSpecOp) ((run ss ops).2.map Driver.statusStr ++ ["ok"]) [m] (some d) mac' =
           Message.checkSegment false aF d m.size mac' := by
   intro ops
   induction ops with
   | nil =>
-    intro ss b mb a hI hL hA hidx hlen hh hz _ _ _ hfin
-    refine ⟨a, by rw [← hfin]; exact hA, by rw [← hfin]; exact hh, hz, ?_⟩
+    intro ss b mb a hI hL hA hidx hlen hh hz hC _ _ _ hfin
+    refine ⟨a, by rw [← hfin]; exact hA, by rw [← hfin]; exact hh, hz, hC, ?_⟩
     simp [run, Message.walk]
   | cons op ops ih =>
-    intro ss b mb a hI hL hA hidx hlen hh hz ht hr hno hfin
+    intro ss b mb a hI hL hA hidx hlen hh hz hC ht hr hno hfin
     obtain ⟨hop, hrest⟩ := hr
     have ht' : ∀ op' ∈ ops, op'.Typed := fun op' h => ht op' (List.mem_cons_of_mem _ h)
     have hhs := hdr_step ss op hI.inv (ht op List.mem_cons_self)
@@ -211,7 +400,8 @@ theorem walk_segment {sR : State} (hcurR : sR.cursor ≤ 65535) (d : Message.Dec
     obtain ⟨hs1, hs2⟩ := toSpecOp_ne op hnc hng
     have hjust := step_justified ss op a hI hop hA
     have hsame := step_err_same ss op hI.inv
-    unfold run at hfin ⊢
+    unfold run at hfin
+    unfold run mrun
     cases hs : step ss op with
     | mk r ss' =>
       rw [hs] at hnp hI' hrest hL' hfin hjust hsame hhs
@@ -227,10 +417,10 @@ theorem walk_segment {sR : State} (hcurR : sR.cursor ≤ 65535) (d : Message.Dec
             have := hhs (by simp)
             simp only [reduceCtorEq, if_false] at this
             rw [this]; exact hh
-          obtain ⟨aF, hAF, hF1, hF2, hw⟩ := ih ss' b mb a hI' hL' hA' hidx hlen hh' hz ht' hrest hno'
+          obtain ⟨aF, hAF, hF1, hF2, hF3, hw⟩ := ih ss' b mb a hI' hL' hA' hidx hlen hh' hz hC ht' hrest hno'
             (by rw [hrun]; exact hfin)
-          rw [hrun] at hw
-          refine ⟨aF, hAF, hF1, hF2, ?_⟩
+          rw [hrun] at hw hF3
+          refine ⟨aF, hAF, hF1, hF2, by simpa [bodyRun] using hF3, ?_⟩
           simp only [List.map_cons, List.cons_append]
           rw [walk_default _ _ _ _ _ _ _ _ hs1 hs2, statusStr_err_ne_ok]
           simp only [Bool.false_eq_true, if_false, Bool.false_or, hjust e rfl, if_true]
@@ -310,10 +500,11 @@ theorem walk_segment {sR : State} (hcurR : sR.cursor ≤ 65535) (d : Message.Dec
             simp only [if_true] at this
             rw [this, hah, hh]
           have hz' : a'.hdr.z = 0 := by rw [hah, hdrStep_z]; exact hz
-          obtain ⟨aF, hAF, hF1, hF2, hw⟩ := ih ss' (bodyStep b op) _ a' hI' hL' hA' hidx' hlen' hh' hz' ht' hrest hno'
-            (by rw [hrun]; exact hfin)
-          rw [hrun] at hw
-          refine ⟨aF, hAF, hF1, hF2, ?_⟩
+          have hC' := absOk_content ss op a a' d b mb hL hA hC hnc hok habs
+          obtain ⟨aF, hAF, hF1, hF2, hF3, hw⟩ := ih ss' (bodyStep b op) _ a' hI' hL' hA' hidx' hlen' hh' hz' hC' ht'
+            hrest hno' (by rw [hrun]; exact hfin)
+          rw [hrun] at hw hF3
+          refine ⟨aF, hAF, hF1, hF2, by simpa [bodyRun] using hF3, ?_⟩
           simp only [List.map_cons, List.cons_append]
           rw [walk_default _ _ _ _ _ _ _ _ hs1 hs2]
           have hokstr : (Driver.statusStr (.ok u) == "ok") = true := by cases u; decide
@@ -335,6 +526,8 @@ theorem walk_from_new (macFn : Tsig → List UInt8 → List UInt8) (hmac : MacLe
     ∃ m mac d aF, finish (run { w := { s0 with mode := mode } } ops).1.w macFn = .ok (m, mac) ∧
       Message.specDecodeMsg m = some d ∧ AbsNum (run { w := { s0 with mode := mode } } ops).1.w aF ∧
       aF.hdr = d.msg.header ∧ aF.hdr.z = 0 ∧
+      AbsContent aF (bodyRun {} ops (run { w := { s0 with mode := mode } } ops).2)
+        (mrun { w := { s0 with mode := mode } } {} ops) ∧
       Message.walk false
           { mode := Driver.toSpecMode mode, buflen := buf.size, limit := min limit buf.size }
           (ops.map Driver.toSpecOp)
@@ -351,8 +544,8 @@ theorem walk_from_new (macFn : Tsig → List UInt8 → List UInt8) (hmac : MacLe
   obtain ⟨m, mac, hf⟩ := finish_ok macFn hmac _ hIR
   have hsz := session_size_le macFn buf limit s0 hnew hlim mode ops hr hv m mac hf
   generalize hsR : (run { w := { s0 with mode := mode } } ops).1.w = sR at hIR hLR hlimR hf
-  generalize bodyRun {} ops (run { w := { s0 with mode := mode } } ops).2 = B at hLR hT
-  generalize mrun { w := { s0 with mode := mode } } {} ops = MB at hLR
+  generalize hB : bodyRun {} ops (run { w := { s0 with mode := mode } } ops).2 = B at hLR hT
+  generalize hMB : mrun { w := { s0 with mode := mode } } {} ops = MB at hLR
   have hst : ∀ r ∈ B.an ++ B.ns ++ B.ar, LayoutStable r := by
     intro r hx
     have hr : r.Typed := by
@@ -373,11 +566,13 @@ theorem walk_from_new (macFn : Tsig → List UInt8 → List UInt8) (hmac : MacLe
     rw [hd] at hd'
     cases hd'
     exact h qs rs hq hr'
-  obtain ⟨aF, hAF, hF1, hF2, hw⟩ := walk_segment hcurR d m mac' hpre ops { w := { s0 with mode := mode } } {} {} _
-    hI0 hL0 hA0 rfl rfl (by show _ = specHeader s0.octets; rw [hdr_new buf limit s0 hnew]) rfl ht hr hno hsR
+  obtain ⟨aF, hAF, hF1, hF2, hF3, hw⟩ := walk_segment hcurR d m mac' hpre ops { w := { s0 with mode := mode } } {} {} _
+    hI0 hL0 hA0 rfl rfl (by show _ = specHeader s0.octets; rw [hdr_new buf limit s0 hnew]) rfl
+    ⟨rfl, rfl, rfl, rfl, rfl⟩ ht hr hno hsR
   obtain ⟨d2, _, _, _, _, hd2, hh2, _⟩ := finish_refines macFn sR B MB hIR hLR hst m mac hf hsz
   rw [hd] at hd2
   cases hd2
-  exact ⟨m, mac, d, aF, hf, hd, hAF, by rw [hF1, hh2], hF2, hw⟩
+  rw [hB, hMB] at hF3
+  exact ⟨m, mac, d, aF, hf, hd, hAF, by rw [hF1, hh2], hF2, hF3, hw⟩
 
 end QV.Writer
